@@ -256,10 +256,24 @@ fn sw_inputs<P: sw::SWCurveConfig>(affs: Vec<sw::Affine<P>>, ls: &[P::BaseField]
     SwInputs { affs, reps, affs_ext }
 }
 
+/// rotate through the receiver / operand-order variants of an operator (all must give the same point)
+macro_rules! rot {
+    ($cnt:expr; $($e:expr),+ $(,)?) => {{
+        let alts: Vec<Box<dyn Fn() -> _>> = vec![$(Box::new(|| $e)),+];
+        let k = ($cnt) % alts.len();
+        (alts[k])()
+    }};
+}
+
 fn sw_suite<P: sw::SWCurveConfig>(out: &mut Out, rng: &mut Rng, pfx: &str, inp: &SwInputs<P>, mode: Mode, sub_all: bool) {
     let reps = &inp.reps;
     let n = reps.len();
     let l = |op: &str, args: String| format!("C03 sw.{} {} {}", op, pfx, args);
+    out.line(&l("const", "pzero".into()), &guarded(|| jac(&<sw::Projective<P> as ark_ff::Zero>::zero())));
+    out.line(&l("const", "pdefault".into()), &guarded(|| jac(&sw::Projective::<P>::default())));
+    out.line(&l("const", "azero".into()), &guarded(|| swaff(&<sw::Affine<P> as AffineRepr>::zero())));
+    out.line(&l("const", "aident".into()), &guarded(|| swaff(&sw::Affine::<P>::identity())));
+    out.line(&l("const", "adefault".into()), &guarded(|| swaff(&sw::Affine::<P>::default())));
     // ---- unary (sampled mode: a regular subset of the representatives)
     let ustep = match mode { Mode::Exhaustive => 1, Mode::Sampled(k) => (n / (150 + k / 20)).max(1) };
     for p in reps.iter().step_by(ustep) {
@@ -294,8 +308,8 @@ fn sw_suite<P: sw::SWCurveConfig>(out: &mut Out, rng: &mut Rng, pfx: &str, inp: 
     for (cnt, &(i, j)) in pairs.iter().enumerate() {
         let (p, q) = (reps[i], reps[j]);
         let args = format!("{} {}", jac(&p), jac(&q));
-        out.line(&l("add", args.clone()), &guarded(|| jac(&(p + q))));
-        if sub_all || cnt % 4 == 0 { out.line(&l("sub", args.clone()), &guarded(|| jac(&(p - q)))); }
+        out.line(&l("add", args.clone()), &guarded(|| jac(&rot!(cnt / 3; p + q, p + &q, { let mut z = p; z += q; z }, { let mut z = p; z += &q; z }, { let mut w = q; p + &mut w }))));
+        if sub_all || cnt % 4 == 0 { out.line(&l("sub", args.clone()), &guarded(|| jac(&rot!(cnt / 4; p - q, p - &q, { let mut z = p; z -= q; z }, { let mut z = p; z -= &q; z })))); }
         out.line(&l("eq", args), &guarded(|| b01(p == q)));
     }
     // ---- projective × affine
@@ -316,8 +330,10 @@ fn sw_suite<P: sw::SWCurveConfig>(out: &mut Out, rng: &mut Rng, pfx: &str, inp: 
     for (cnt, &(i, j)) in mp.iter().enumerate() {
         let (p, a) = (reps[i], inp.affs_ext[j]);
         let args = format!("{} {}", jac(&p), swaff(&a));
-        out.line(&l("madd", args.clone()), &guarded(|| jac(&(p + a))));
-        if sub_all || cnt % 4 == 1 { out.line(&l("msub", args.clone()), &guarded(|| jac(&(p - a)))); }
+        out.line(&l("madd", args.clone()), &guarded(|| jac(&rot!(cnt / 3; p + a, p + &a, { let mut z = p; z += a; z }, { let mut z = p; z += &a; z }, a + p, a + &p))));
+        if sub_all || cnt % 4 == 1 { out.line(&l("msub", args.clone()), &guarded(|| jac(&rot!(cnt / 4; p - a, p - &a, { let mut z = p; z -= a; z }, { let mut z = p; z -= &a; z })))); }
+        // `Affine - Projective` is `a + (-p)`: the mixed addition of `-p` (whose negation is checked by `neg`) and `a`
+        if cnt % 5 == 0 { let np = -p; out.line(&l("madd", format!("{} {}", jac(&np), swaff(&a))), &guarded(|| jac(&rot!(cnt / 5; a - p, a - &p)))); }
         if sub_all || cnt % 4 == 2 { out.line(&l("aeqp", format!("{} {}", swaff(&a), jac(&p))), &guarded(|| b01(a == p))); }
     }
     // ---- affine × affine
@@ -334,8 +350,8 @@ fn sw_suite<P: sw::SWCurveConfig>(out: &mut Out, rng: &mut Rng, pfx: &str, inp: 
     for (cnt, &(i, j)) in ap.iter().enumerate() {
         let (a, b) = (inp.affs_ext[i], inp.affs_ext[j]);
         let args = format!("{} {}", swaff(&a), swaff(&b));
-        out.line(&l("aadd", args.clone()), &guarded(|| jac(&(a + b))));
-        if sub_all || cnt % 4 == 3 { out.line(&l("asub", args), &guarded(|| jac(&(a - b)))); }
+        out.line(&l("aadd", args.clone()), &guarded(|| jac(&rot!(cnt / 3; a + b, a + &b))));
+        if sub_all || cnt % 4 == 3 { out.line(&l("asub", args), &guarded(|| jac(&rot!(cnt / 4; a - b, a - &b)))); }
     }
     // ---- lists
     let nl = match mode { Mode::Exhaustive => 40, Mode::Sampled(k) => (k / 20).max(12) };
@@ -469,6 +485,10 @@ fn te_suite<P: te::TECurveConfig>(out: &mut Out, rng: &mut Rng, pfx: &str, inp: 
     let reps = &inp.reps;
     let n = reps.len();
     let l = |op: &str, args: String| format!("C03 te.{} {} {}", op, pfx, args);
+    out.line(&l("const", "pzero".into()), &guarded(|| ext(&<te::Projective<P> as ark_ff::Zero>::zero())));
+    out.line(&l("const", "pdefault".into()), &guarded(|| ext(&te::Projective::<P>::default())));
+    out.line(&l("const", "azero".into()), &guarded(|| teaff(&<te::Affine<P> as AffineRepr>::zero())));
+    out.line(&l("const", "adefault".into()), &guarded(|| teaff(&te::Affine::<P>::default())));
     let ustep = match mode { Mode::Exhaustive => 1, Mode::Sampled(k) => (n / (150 + k / 20)).max(1) };
     for p in reps.iter().step_by(ustep) {
         let p = *p;
@@ -500,8 +520,8 @@ fn te_suite<P: te::TECurveConfig>(out: &mut Out, rng: &mut Rng, pfx: &str, inp: 
     for (cnt, &(i, j)) in pairs.iter().enumerate() {
         let (p, q) = (reps[i], reps[j]);
         let args = format!("{} {}", ext(&p), ext(&q));
-        out.line(&l("add", args.clone()), &guarded(|| ext(&(p + q))));
-        if sub_all || cnt % 4 == 0 { out.line(&l("sub", args.clone()), &guarded(|| ext(&(p - q)))); }
+        out.line(&l("add", args.clone()), &guarded(|| ext(&rot!(cnt / 3; p + q, p + &q, { let mut z = p; z += q; z }, { let mut z = p; z += &q; z }, { let mut w = q; p + &mut w }))));
+        if sub_all || cnt % 4 == 0 { out.line(&l("sub", args.clone()), &guarded(|| ext(&rot!(cnt / 4; p - q, p - &q, { let mut z = p; z -= q; z }, { let mut z = p; z -= &q; z })))); }
         out.line(&l("eq", args), &guarded(|| b01(p == q)));
     }
     let na = inp.affs.len();
@@ -520,8 +540,9 @@ fn te_suite<P: te::TECurveConfig>(out: &mut Out, rng: &mut Rng, pfx: &str, inp: 
     for (cnt, &(i, j)) in mp.iter().enumerate() {
         let (p, a) = (reps[i], inp.affs[j]);
         let args = format!("{} {}", ext(&p), teaff(&a));
-        out.line(&l("madd", args.clone()), &guarded(|| ext(&(p + a))));
-        if sub_all || cnt % 4 == 1 { out.line(&l("msub", args.clone()), &guarded(|| ext(&(p - a)))); }
+        out.line(&l("madd", args.clone()), &guarded(|| ext(&rot!(cnt / 3; p + a, p + &a, { let mut z = p; z += a; z }, { let mut z = p; z += &a; z }, a + p, a + &p))));
+        if sub_all || cnt % 4 == 1 { out.line(&l("msub", args.clone()), &guarded(|| ext(&rot!(cnt / 4; p - a, p - &a, { let mut z = p; z -= a; z }, { let mut z = p; z -= &a; z })))); }
+        if cnt % 5 == 0 { let np = -p; out.line(&l("madd", format!("{} {}", ext(&np), teaff(&a))), &guarded(|| ext(&rot!(cnt / 5; a - p, a - &p)))); }
         if sub_all || cnt % 4 == 2 { out.line(&l("aeqp", format!("{} {}", teaff(&a), ext(&p))), &guarded(|| b01(a == p))); }
     }
     let mut ap: Vec<(usize, usize)> = Vec::new();
@@ -537,8 +558,8 @@ fn te_suite<P: te::TECurveConfig>(out: &mut Out, rng: &mut Rng, pfx: &str, inp: 
     for (cnt, &(i, j)) in ap.iter().enumerate() {
         let (a, b) = (inp.affs[i], inp.affs[j]);
         let args = format!("{} {}", teaff(&a), teaff(&b));
-        out.line(&l("aadd", args.clone()), &guarded(|| ext(&(a + b))));
-        if sub_all || cnt % 4 == 3 { out.line(&l("asub", args), &guarded(|| ext(&(a - b)))); }
+        out.line(&l("aadd", args.clone()), &guarded(|| ext(&rot!(cnt / 3; a + b, a + &b))));
+        if sub_all || cnt % 4 == 3 { out.line(&l("asub", args), &guarded(|| ext(&rot!(cnt / 4; a - b, a - &b)))); }
     }
     let nl = match mode { Mode::Exhaustive => 40, Mode::Sampled(k) => (k / 20).max(12) };
     for t in 0..nl {
